@@ -17,13 +17,20 @@ def main():
         'constrained to be realisable (0 <= m <= n, distinct count compatible with m)',
         'float arithmetic of the profiler encoded as IEEE doubles (E1 proxies), round(x,2) exactly']
     ck.bounds = dict(rows='1 <= n <= 2^%d' % B, attributes=2, profile_attrs='None, one, both, reversed')
-    ck.outside += ['tables above 2^%d rows' % B, 'dtype-specific behaviour of Series.unique / isnull '
-                   '(e.g. NaN objects in float columns)']
+    ck.outside += ['tables above 2^%d rows' % B, 'dtype-specific behaviour of Series.unique / isnull beyond '
+                   'the six dtype kinds of the dtypes stage (replays and trace validation build real columns '
+                   'of those dtypes)']
     ck.e2('comments-and-stats', h_prof.make(dict(B=B, attrs=['a'], profile_attrs=[None])),
           bounds=dict(B=B), stop_on_violation=False, chunk_paths=50)
     ck.e2('shape', h_prof.make(dict(B=8, attrs=['a', 'b'],
                                     profile_attrs=[None, ['a'], ['b', 'a'], ['b'], []])),
           bounds=dict(B=8), stop_on_violation=True, chunk_paths=50)
+    # "any dtypes": the column's dtype (what `.dtype.kind` / `.dtype.name` answer) is a symbolic
+    # choice; every kind can hold missing values (float NaN, nullable Int64/UInt32 NA, NaT, None)
+    ck.e2('dtypes', h_prof.make(dict(B=8 if quick else 12, attrs=['a'], profile_attrs=[None],
+                                     kinds=['O', 'f', 'i', 'u', 'M', 'S'], validate_every=3)),
+          bounds=dict(B=8 if quick else 12, dtype_kinds='object, float64, Int64, UInt32, datetime64, string'),
+          stop_on_violation=False, chunk_paths=50)
     ck.finish()
 
 
